@@ -141,10 +141,24 @@ func (r *UnifiedMemoryModelRegistry) unifyModelsAsync(ctx context.Context, endpo
 		}
 	}
 
+	// The goroutines started by successive RegisterModels calls are not ordered. Unify what
+	// the endpoint lists now rather than the slice captured by the caller, otherwise an older
+	// listing unified last would leave the catalogue in a state the endpoint is no longer in.
+	if current, lerr := r.MemoryModelRegistry.GetModelsForEndpoint(context.WithoutCancel(ctx), endpointURL); lerr == nil {
+		models = current
+	}
+
 	// Unify all models for this endpoint
 	unifiedModels, err := r.unifier.UnifyModels(ctx, models, endpoint)
 	if err != nil {
 		r.logger.ErrorWithEndpoint(endpoint.Name, "Failed to unify models", err)
+		return
+	}
+
+	// The unifier has replaced everything it knew about this endpoint with the new listing.
+	// Mirror its store instead of merging into our previous copy: merging can only ever add
+	// source endpoints, so a model the endpoint stopped listing kept it as a source for ever.
+	if r.syncFromUnifier(ctx) {
 		return
 	}
 
@@ -190,6 +204,88 @@ func (r *UnifiedMemoryModelRegistry) unifyModelsAsync(ctx context.Context, endpo
 	}
 
 	// r.logger.InfoWithEndpoint(" ", endpointUrl, "models", len(unifiedModels))
+}
+
+// unifiedCatalogueLister is implemented by the unifiers that can enumerate their store.
+type unifiedCatalogueLister interface {
+	GetAllModels(ctx context.Context) ([]*domain.UnifiedModel, error)
+}
+
+// syncFromUnifier rebuilds the registry's copy of the unified catalogue and the cached
+// endpoint sets from the unifier's store, the source of truth for which endpoints serve a
+// model. Returns false when the unifier cannot enumerate its store.
+// Must be called with unificationMutex held.
+func (r *UnifiedMemoryModelRegistry) syncFromUnifier(ctx context.Context) bool {
+	lister, ok := r.unifier.(unifiedCatalogueLister)
+	if !ok {
+		return false
+	}
+	all, err := lister.GetAllModels(ctx)
+	if err != nil {
+		return false
+	}
+
+	current := make(map[string]*domain.UnifiedModel, len(all))
+	for _, model := range all {
+		if model != nil && len(model.SourceEndpoints) > 0 {
+			current[model.ID] = model
+		}
+	}
+
+	r.globalUnified.Range(func(id string, _ *domain.UnifiedModel) bool {
+		if _, exists := current[id]; !exists {
+			r.globalUnified.Delete(id)
+		}
+		return true
+	})
+
+	endpointSets := make(map[string]map[string]struct{})
+	addToSet := func(key string, urls []string) {
+		if key == "" {
+			return
+		}
+		set, exists := endpointSets[key]
+		if !exists {
+			set = make(map[string]struct{}, len(urls))
+			endpointSets[key] = set
+		}
+		for _, u := range urls {
+			set[u] = struct{}{}
+		}
+	}
+
+	for id, model := range current {
+		r.globalUnified.Store(id, model)
+
+		endpointURLs := make([]string, 0, len(model.SourceEndpoints))
+		for _, sourceEndpoint := range model.SourceEndpoints {
+			endpointURLs = append(endpointURLs, sourceEndpoint.EndpointURL)
+		}
+
+		addToSet(id, endpointURLs)
+		for _, sourceEndpoint := range model.SourceEndpoints {
+			addToSet(sourceEndpoint.NativeName, endpointURLs)
+		}
+		for _, alias := range model.Aliases {
+			addToSet(alias.Name, endpointURLs)
+		}
+	}
+
+	r.modelEndpointSets.Range(func(key string, _ *xsync.Map[string, struct{}]) bool {
+		if _, exists := endpointSets[key]; !exists {
+			r.modelEndpointSets.Delete(key)
+		}
+		return true
+	})
+	for key, set := range endpointSets {
+		urls := make([]string, 0, len(set))
+		for u := range set {
+			urls = append(urls, u)
+		}
+		r.updateEndpointSet(key, urls)
+	}
+
+	return true
 }
 
 // updateEndpointSet updates the cached endpoint set for a given model
@@ -314,6 +410,21 @@ func (r *UnifiedMemoryModelRegistry) RemoveEndpoint(ctx context.Context, endpoin
 	// Clean up unified models
 	r.unificationMutex.Lock()
 	defer r.unificationMutex.Unlock()
+
+	// Unifying the endpoint's (now empty) listing makes the unifier drop it as a source
+	// everywhere, including in its own store (which also answers alias lookups); then mirror
+	// the result.
+	if _, ok := r.unifier.(unifiedCatalogueLister); ok {
+		endpoint, exists := r.endpoints.Load(endpointURL)
+		if !exists {
+			endpoint = &domain.Endpoint{URLString: endpointURL, Name: endpointURL}
+		}
+		// (re-read the listing: the endpoint may have been registered again in the meantime)
+		current, _ := r.MemoryModelRegistry.GetModelsForEndpoint(context.WithoutCancel(ctx), endpointURL)
+		if _, err := r.unifier.UnifyModels(ctx, current, endpoint); err == nil && r.syncFromUnifier(ctx) {
+			return nil
+		}
+	}
 
 	// Remove endpoint from all unified models
 	r.globalUnified.Range(func(id string, model *domain.UnifiedModel) bool {
